@@ -57,12 +57,18 @@ class Ctx:
     def build_harness(self, race=False):
         out = os.path.join(self.work, "wzh-race" if race else "wzh")
         hdir = os.path.join(VERIF, "harness")
-        shutil.copy(os.path.join(REPO, "go.sum"), os.path.join(hdir, "go.sum"))
+        # the module file is generated per run so that the library under test is $WZ_REPO (default /repo)
+        modfile = os.path.join(self.work, "go.mod")
+        with open(os.path.join(hdir, "go.mod")) as f:
+            mod = f.read().replace("=> /repo", "=> " + REPO)
+        with open(modfile, "w") as f:
+            f.write(mod)
+        shutil.copy(os.path.join(REPO, "go.sum"), os.path.join(self.work, "go.sum"))
         env = dict(os.environ, **GOENV)
-        cmd = ["go", "build", "-tags", "verif"] + (["-race"] if race else []) + ["-o", out, "./cmd/wzh"]
+        cmd = ["go", "build", "-modfile", modfile, "-tags", "verif"] + (["-race"] if race else []) + ["-o", out, "./cmd/wzh"]
         r = subprocess.run(cmd, cwd=hdir, env=env, capture_output=True, text=True)
         if r.returncode != 0:
-            raise Machinery("harness build failed (does /repo still compile?):\n" + r.stdout + r.stderr)
+            raise Machinery("harness build failed (does %s still compile?):\n" % REPO + r.stdout + r.stderr)
         if not race:
             self.wzh = out
         return out
@@ -326,11 +332,14 @@ def tail(s, n=40):
 
 
 def load_known():
-    p = os.path.join(VERIF, "known_findings.json")
-    if not os.path.exists(p):
-        return []
-    with open(p) as f:
-        return [k for k in json.load(f).get("findings", [])]
+    """known_findings.json plus known_findings.d/*.json (one file per property, merged)."""
+    out = []
+    files = [os.path.join(VERIF, "known_findings.json")] + sorted(glob.glob(os.path.join(VERIF, "known_findings.d", "*.json")))
+    for p in files:
+        if os.path.exists(p):
+            with open(p) as f:
+                out.extend(json.load(f).get("findings", []))
+    return out
 
 
 def match_known(known, prop, sig):
